@@ -72,6 +72,8 @@ class DictUnslicer(BaseUnslicer):
     def update(self, value, key):
         # this is run as a Deferred callback, hence the backwards arguments
         self.d[key] = value
+        # pass the object on to the callbacks of later references to it
+        return value
 
     def receiveChild(self, obj, ready_deferred=None):
         if ready_deferred:
